@@ -8,7 +8,7 @@ table = subprocess.check_output([sys.executable, os.path.join(HERE, 'tools', 'se
 TEXT = '''## 9. Seeded changes: which checks catch which
 --------------------------------------------------------------------------------
 
-Five rounds of seeding were run with fresh sub-agents (the fourth and fifth after the coverage audit of every harness).  Each agent got only the text of one
+Six rounds of seeding were run with fresh sub-agents (the fourth and fifth after the coverage audit of every harness, the sixth after the statefulness audit).  Each agent got only the text of one
 property and its own scratch git worktree of /repo (nothing from /verif), and had to produce a
 change that breaks the property, keeps the package importable and leaves the repository's test
 results exactly as they were (same 542 passing / 48 failing tests), plus a demonstration program.
@@ -69,6 +69,12 @@ The misses and what was changed (every one is caught now; no check was loosened 
   that the UNCHANGED code already had the defect for Ctrl-C and every other exception (section 6, repaired by a fix:
   commit); on the repaired tree the seeded change is harmless and the check rightly exits 0 on it.
 
+* Round 6 (after the statefulness audit): 17 of 20 caught at once.  C15 (SignatureArray constructor copying a list
+  through one np.concatenate: a list mixing uint64 with signed elements is promoted to float64 and indices above
+  2^53 are rounded): ROUND6_C15.  C18 (load_genomeset runs create_all: a genome file that lacks a model table, or is
+  empty, gets tables created by a plain load): ROUND6_C18.  C19 (re-saving an open HDF5Signatures copies the source
+  group's attributes, marker included, before the datasets): ROUND6_C19.
+
 **Behaviour-preserving rewrites (the opposite experiment).**  A check that alarms on correct code is as
 useless as one that misses a defect, so after round 3 twenty fresh sub-agents (same isolation: the
 property text and a scratch worktree only) each produced a *harmless* maintenance rewrite of the code
@@ -78,7 +84,8 @@ library calls, private call paths changed -- together with a seeded differential
 clean vs patched in two sub-processes, 1 000 to 50 000 recorded outcomes including exception types and
 messages) and the unchanged test-suite result.  Each was confirmed (`tools/try_refac.sh`: `equiv.py`
 re-run: SAME) and the property's check was run against the patched copy: **all twenty exit 0 with no
-VIOLATION line** (`harmless/<id>/`, meta.json holds the result line).  Two things were changed because
+VIOLATION line** (`harmless/<id>/`, meta.json holds the result line); the same patches were run again after the
+statefulness audit had added the sequence streams (18 still apply to the repaired tree): again no alarm.  Two things were changed because
 of this experiment, before it was run on all twenty: the syntactic ties of five Python helpers became
 advisory (a rewrite of `chunk_slices` or `index_dtype` would otherwise have been a
 `no-failing-input-found` violation, section 0) and a translator failure is only reported against the
